@@ -461,6 +461,8 @@ class Driver(object):
             self._answer(req, ('fault', e.code))
             return True
         if v is NOT_DONE_YET:
+            if req is not None:
+                self.kernel.trace.append(('polled', req))     # harness marker: the deferred answer was polled, not ready
             if first:
                 self.pending.append((req, cb))
             return False
